@@ -40,6 +40,7 @@ var svcNames = []string{"store", "calc", "front", "svc"}
 var formats = []string{"date", "date-time", "uuid", "email", "hostname", "ipv4", "ipv6", "ip", "uri", "mac", "cidr", "regexp", "json", "rfc1123"}
 
 type gen struct {
+	lastCred  string
 	risky     string
 	riskyUsed bool
 	r         *lp.Rng
@@ -66,6 +67,9 @@ func Generate(r *lp.Rng, o Opts) *Design {
 	}
 	if o.Security {
 		g.schemes()
+		if r.Intn(3) == 0 {
+			g.d.Security = []Req{g.requirement()} // API level requirement
+		}
 	}
 	if o.Errors && r.Intn(2) == 0 {
 		// API level: an error definition methods may refer to by name, and status mappings by name
@@ -457,6 +461,9 @@ func (g *gen) method(s *Service, name string, cell int) {
 		if !m.NoSecurity && len(reqs) == 0 {
 			reqs = s.Security
 		}
+		if !m.NoSecurity && len(reqs) == 0 {
+			reqs = g.d.Security
+		}
 	}
 
 	used := map[string]bool{}
@@ -544,6 +551,7 @@ func (g *gen) method(s *Service, name string, cell int) {
 				}
 				add := func(attr, cred string) {
 					attr = g.uniq(used, attr)
+					g.lastCred = attr
 					m.Creds[attr] = cred
 					payload.Type.Object = append(payload.Type.Object, &Field{Name: attr, Att: &Att{Type: &Type{Prim: "String"}}})
 					payload.Required = append(payload.Required, attr)
@@ -554,8 +562,17 @@ func (g *gen) method(s *Service, name string, cell int) {
 					add("pass", "password")
 				case "apikey":
 					add("key", "apikey:"+sn)
+					switch r.Intn(3) { // explicit location of the key, or goa's default
+					case 0:
+						h.Headers = append(h.Headers, Mapped{Attr: g.lastCred, Wire: "X-API-Key"})
+					case 1:
+						h.Params = append(h.Params, Mapped{Attr: g.lastCred, Wire: "api_key"})
+					}
 				case "jwt":
 					add("token", "jwt")
+					if r.Intn(3) == 0 {
+						h.Headers = append(h.Headers, Mapped{Attr: g.lastCred, Wire: lp.Pick(r, []string{"Authorization", "X-Token"})})
+					}
 				case "oauth2":
 					add("access", "oauth2")
 				}
